@@ -13,6 +13,7 @@
    [oks items] = the successfully decoded payloads, in order. *)
 From Compio.Model Require Import Base Frame Cmsg RecvMsgOut.
 From Compio.Model Require IoHelpers.
+From Compio.Gen Require Consts.
 From Compio.Thm Require Import FrameThm CmsgThm RecvMsgOutThm.
 
 (* ---------------------------------------------------------------------- *)
@@ -124,6 +125,27 @@ Theorem C13_reader_terminates : forall fr sched src,
     length items + length rest <= length src + length sched.
 Proof. exact decode_stream_total. Qed.
 Print Assumptions C13_reader_terminates.
+
+(* ---------------------------------------------------------------------- *)
+(* construction paths                                                       *)
+
+(* new(), Default::default() and a Clone of either give the same framer, and
+   it is the declared one (CharDelimited<C>: the UTF-8 encoding of C): every
+   theorem of this file holds for framers however they were built *)
+Theorem C13_constructors_agree : forall ct s, framer_via ct s = framer_via CNew s.
+Proof. exact framer_via_new. Qed.
+Print Assumptions C13_constructors_agree.
+
+Theorem C13_constructor_declared : forall ct s,
+  framer_via ct s =
+  match s with
+  | FLen lfl be => LenDelim lfl be
+  | FAny d => AnyDelim d
+  | FChar c => AnyDelim (utf8 c)
+  | FNoop => Noop (nn Consts.NOOP_MAX_SIZE)
+  end.
+Proof. exact framer_via_declared. Qed.
+Print Assumptions C13_constructor_declared.
 
 (* ---------------------------------------------------------------------- *)
 (* the sink with a codec that can fail                                      *)
